@@ -23,7 +23,7 @@ impl<const N: usize> Exec<N> {
         }
         if self.view.live().len() >= 2 {
             let target = match s {
-                Step::Add { i, .. } | Step::Bind { i, .. } | Step::Put { i, .. } | Step::Data { i, .. } | Step::NextId { i, .. }
+                Step::Add { i, .. } | Step::Bind { i, .. } | Step::Put { i, .. } | Step::PutRaw { i, .. } | Step::Data { i, .. } | Step::NextId { i, .. }
                 | Step::Drain { i, .. } | Step::Script { i, .. } | Step::Save { i, .. } | Step::Oob { i, .. } => *i + 1,
                 Step::Clone { src, .. } | Step::Slice { src, .. } => *src + 1,
                 Step::Merge { dst, .. } => *dst + 1,
@@ -71,18 +71,23 @@ impl<const N: usize> Exec<N> {
 
     fn step_inner(&mut self, s: &Step) -> Result<Applied, Failure> {
         match s {
-            Step::Empty { i } => {
+            Step::Empty { .. } | Step::EmptyCap { .. } => {
+                let (i, own_cap) = match s {
+                    Step::EmptyCap { i, cap } => (i, Some(*cap)),
+                    Step::Empty { i } => (i, None),
+                    _ => unreachable!(),
+                };
                 if *i >= self.gs.len() || self.gs[*i].is_some() {
                     return Ok(Applied::Skipped);
                 }
-                let cap = self.view.cfg.cap;
+                let cap = own_cap.unwrap_or(self.view.cfg.cap);
                 let g = match guarded(|| Sodg::<N>::empty(cap)) {
                     Ok(g) => g,
                     Err(c) => return fail("panic.in-contract-call", clauses::C07, format!("empty({cap}): {c:?}")),
                 };
                 let fam = self.view.next_family;
                 self.view.next_family += 1;
-                let (mc, mn) = (self.view.cfg.contract_cap(), self.view.cfg.contract_n());
+                let (mc, mn) = (own_cap.unwrap_or(self.view.cfg.contract_cap()), self.view.cfg.contract_n());
                 self.new_inst(*i, g, RefGraph::new(mc, mn), Origin::Fresh, fam)?;
                 self.hash_step(s, "");
                 Ok(Applied::Done)
@@ -116,6 +121,15 @@ impl<const N: usize> Exec<N> {
                     return Ok(Applied::Skipped);
                 }
                 self.op_with_followers(*i, &Op::Put(v, d.clone()))?;
+                self.hash_step(s, "");
+                Ok(Applied::Done)
+            }
+            Step::PutRaw { i, v, d, enc } => {
+                let Some(v) = self.id(*v) else { return Ok(Applied::Skipped) };
+                if !self.targetable(*i) || !self.view.insts[*i].as_ref().unwrap().m.can_put(v) {
+                    return Ok(Applied::Skipped);
+                }
+                self.op_with_followers(*i, &Op::PutRaw(v, d.clone(), *enc))?;
                 self.hash_step(s, "");
                 Ok(Applied::Done)
             }
@@ -196,7 +210,7 @@ impl<const N: usize> Exec<N> {
             Step::Drain { i, on_clone, order } => self.do_drain(*i, *on_clone, *order, s),
             Step::Slice { src, v, pred, seeds, keep } => self.do_slice(*src, *v, *pred, seeds, *keep, s),
             Step::Merge { dst, src, left, right } => self.do_merge(*dst, *src, *left, *right, s),
-            Step::Script { i, cmds, style, var } => self.do_script(*i, cmds, *style, *var, s),
+            Step::Script { i, cmds, style, var, name } => self.do_script(*i, cmds, *style, *var, name, s),
             Step::Damage { path, kind } => self.do_damage(*path, *kind),
             Step::Oob { i, call } => self.do_oob(*i, call),
         }
@@ -246,7 +260,12 @@ impl<const N: usize> Exec<N> {
                 Some("edges" | "data") => &["C10", "C03"],
                 _ => clauses::C10,
             };
-            return fail("clone.sweep-differs", owners, format!("right after clone(): {d}"));
+            let f = fail::<()>("clone.sweep-differs", owners, format!("right after clone(): {d}")).unwrap_err();
+            if self.owned(&f) {
+                return Err(f);
+            }
+            // observational and not this check's business: the copy lives on under the source's model
+            self.stats.bump("foreign.passed_over.clone.sweep-differs");
         }
         self.refresh_hints(dst);
         {
@@ -602,11 +621,13 @@ impl<const N: usize> Exec<N> {
                         Some("edges" | "data") => &["C08", "C03"],
                         _ => clauses::C08,
                     };
-                    return fail(
-                        "reload.sweep-differs",
-                        owners,
-                        format!("saved graph vs load(save(g)): {d}"),
-                    );
+                    let f = fail::<()>("reload.sweep-differs", owners, format!("saved graph vs load(save(g)): {d}")).unwrap_err();
+                    if self.owned(&f) || st.obs.keys != obs.keys {
+                        return Err(f);
+                    }
+                    // observational and not this check's business: the reloaded graph lives on under
+                    // the saved model
+                    self.stats.bump("foreign.passed_over.reload.sweep-differs");
                 }
                 // the one permitted difference, stated positively: the allocator restarts
                 // from the lowest absent id
